@@ -21,6 +21,7 @@ class PumpFacts:
         self.send_byte = []  # (node, state)
         self.send_none = []
         self.send_other = []
+        self.cleared = []  # (node, state): look-ahead variable reset to None
         self.next = []
         self.yields = []  # (node, state, what)
         self.returns = []  # (node, state)
@@ -166,6 +167,11 @@ def analyse(project, roles: MarshalRoles = None):
             if tname == byte:
                 if isinstance(a.value, ast.Constant) and a.value.value is None and B == "INIT":
                     return [(s, st) for s in nxt]
+                if isinstance(a.value, ast.Constant) and a.value.value is None:
+                    # the variable stops holding a byte: harmless after the byte was consumed (SENT), a dropped byte
+                    # while it is still unconsumed (FRESH) - recorded for C10-T1 / C13
+                    F.cleared.append((node, st))
+                    return [(s, ("INIT", D, E)) for s in nxt]
                 raise AnalysisError(f"pump: look-ahead variable assigned from `{norm(a.value)}` at line {a.lineno}")
             if tname in (proc, it):
                 if B != "INIT":
